@@ -1075,6 +1075,8 @@ let dispatch line =
   | "X" :: args -> x_line args
   | "UE" :: args -> ue_line args
   | ["N"; "pfn"; h] -> "model=" ^ hex_of_str (public_field_name (str_of_hex h))
+  | ["N"; "jq"; h] -> "model=" ^ hex_of_str (json_string_quote (str_of_hex h))
+  | ["N"; "ju"; h] -> "model=" ^ (match json_string_unquote (str_of_hex h) with Some s -> "ok:" ^ hex_of_str s | None -> "ERR")
   | ["N"; "cmt"; h] -> "model=" ^ hex_of_str (holes_comment (str_of_hex h))
   | ["N"; "lex"; h] -> "model=" ^ (match holes_ctx_after (str_of_hex h) with
       | HCode -> "Code" | HIdent -> "Ident" | HStr -> "Str" | HRaw -> "Raw" | HRune -> "Rune"
